@@ -402,6 +402,84 @@ func c10R1(c *Check, sr *storeRoles) {
 				"the expiry predicate is not evaluated against the store clock's current time")
 		}
 	}
+	// activity extends the idle limit: every interface method that hands out or updates an existing session
+	// refreshes its last-used time from the store clock before a successful return
+	for _, fn := range sr.memMethods {
+		if fn.Parent() != nil {
+			continue
+		}
+		touches := false
+		for _, b := range fn.Blocks {
+			for _, ins := range b.Instrs {
+				if fa, ok := ins.(*ssa.FieldAddr); ok && sr.SessionType != nil && types.Identical(derefType(fa.X.Type()), sr.SessionType) {
+					if f := fieldOf(fa.X.Type(), fa.Field); f != nil && (f.Name() == "tokenResponse" || f.Name() == "authorizationState") {
+						touches = true
+					}
+				}
+			}
+		}
+		if !touches || fn == sr.Expiry {
+			continue
+		}
+		isTouch := func(i ssa.Instruction) bool {
+			st, ok := i.(*ssa.Store)
+			if !ok {
+				return false
+			}
+			fa, isF := st.Addr.(*ssa.FieldAddr)
+			if !isF || sr.SessionType == nil || !types.Identical(derefType(fa.X.Type()), sr.SessionType) {
+				return false
+			}
+			f := fieldOf(fa.X.Type(), fa.Field)
+			if f == nil || f.Name() != "accessed" {
+				return false
+			}
+			for _, l := range Leaves(st.Val, leafOpts{noConcat: true}) {
+				if nc, _, isC := asCall(l); isC && isCallTo(nc, pkgOIDC+".Clock.Now") {
+					return true
+				}
+				if _, isP := l.(*ssa.Parameter); isP {
+					return true // newSession(t): the creation time
+				}
+			}
+			return false
+		}
+		isFreshSession := func(i ssa.Instruction) bool {
+			cc, ok := i.(*ssa.Call)
+			return ok && cc.Common().StaticCallee() != nil && cc.Common().StaticCallee().Name() == "newSession"
+		}
+		ok := true
+		var at ssa.Instruction
+		ff := FactsOf(fn)
+		for _, r := range returnsOf(fn) {
+			// returns that hand out nothing (nil data) are exempt
+			if len(r.Results) == 2 && isNilConst(r.Results[0]) {
+				continue
+			}
+			// a path to this return on which a session exists must pass a touch (or creates a fresh session)
+			hit := reachAvoidingEdges(fn.Blocks[0].Instrs[0], func(i ssa.Instruction) bool { return i == ssa.Instruction(r) },
+				func(i ssa.Instruction) bool { return isTouch(i) || isFreshSession(i) },
+				func(p, q *ssa.BasicBlock) bool {
+					// skip edges on which the looked-up session is known absent
+					for cond, pol := range ff.OnEdge(p, q) {
+						if bo, isB := cond.(*ssa.BinOp); isB && isNilConst(bo.Y) && sr.SessionType != nil && types.Identical(derefType(bo.X.Type()), sr.SessionType) {
+							if (bo.Op == token.EQL && pol) || (bo.Op == token.NEQ && !pol) {
+								return true
+							}
+						}
+					}
+					return false
+				})
+			if hit != nil && len(r.Results) <= 1 && fn.Name() == "ClearAuthorizationState" {
+				// clearing a non-existent session touches nothing: only paths with a session count (handled by skipEdge)
+			}
+			if hit != nil {
+				ok, at = false, r
+			}
+		}
+		c.Obl(ok, "C10.R1", "touch/"+fnKey(fn), P.Pos(fn.Pos()), "an existing session's last-used time is refreshed (clock.Now()) before "+fn.Name()+" returns successfully",
+			fmt.Sprintf("%s can hand out or update an existing session without refreshing its last-used time (%s): activity no longer extends the idle limit and a session inside both limits is dropped", fn.Name(), posOf(P, at)))
+	}
 	// information: who calls the sweep
 	sweepCallers := 0
 	for _, fn := range P.Funcs {
